@@ -71,6 +71,19 @@ class Ref:
     def getitem(self, ev, key, lineno):
         return Ref(("sub", self.desc, _k(key)))
 
+    def setitem(self, ev, idx, v, lineno):
+        """in-place store into a described array.  A boolean-mask index with a constant False / True is the same array as
+        `a &= ~mask` / `a |= mask` (normalised to that description); any other index -- in particular VALUES of a reference
+        column used as positions -- gives a description that no specification term equals: labels are not positions"""
+        d = _k(idx)
+        is_mask = isinstance(d, tuple) and d and d[0] in ("isin", "cmp", "not", "&", "|")
+        if is_mask and v is False:
+            self.desc = ("&", self.desc, ("not", d))
+        elif is_mask and v is True:
+            self.desc = ("|", self.desc, d)
+        else:
+            self.desc = ("positional-store-indexed-by-values", self.desc, d, _k(v))
+
     def cmp(self, op, other):
         return Ref(("cmp", self.desc, op, _k(other)))
 
